@@ -147,6 +147,7 @@ type PoolWorld struct {
 	paid       map[string]*big.Int
 	settleFail bool
 	burstSeq   int64
+	during     []J  // credits booked to wallets while the next settlement is in progress (scripted on the Withdraw operation)
 	settleOnce bool // the next settlement fails, later ones succeed (real-clock wallet bursts only; cleared when the burst ends)
 	lastPay    *big.Int
 
@@ -204,7 +205,21 @@ func (w *World) newPool(op J) error {
 		pw.mu.Lock()
 		fail := pw.settleFail || pw.settleOnce
 		pw.settleOnce = false
+		during := pw.during
+		pw.during = nil
 		pw.mu.Unlock()
+		// the settlement takes its time: meanwhile the wallets keep earning
+		for _, d := range during {
+			var err error
+			if has(d, "id") {
+				err = w.store.AddNodeBalance(store.NodeID(w.names.node(str(d, "id"))), w.money.real(num(d, "amt")))
+			} else {
+				err = w.store.AddAccountBalance(store.Account(w.names.wallet(str(d, "acct"))), w.money.real(num(d, "amt")))
+			}
+			if err != nil && err.Error() != "unregistered node" {
+				w.tr.flagBad("credit during settlement failed: %v", err)
+			}
+		}
 		if !fakeClock {
 			time.Sleep(300 * time.Microsecond) // a settlement takes a moment: widens the windows racing withdrawals have
 		}
@@ -730,6 +745,14 @@ func (w *World) poolOp(op J) (J, error) {
 	case "Withdraw":
 		pw.mu.Lock()
 		pw.lastPay = nil
+		pw.during = nil
+		if l, ok := op["during"].([]interface{}); ok {
+			for _, x := range l {
+				if m, ok := x.(map[string]interface{}); ok {
+					pw.during = append(pw.during, m)
+				}
+			}
+		}
 		pw.mu.Unlock()
 		var out interface{}
 		if err := pw.call(c, &out, "pool_withdraw", pw.signedArgs(op, "pool_withdraw", true, nil, nil)); err != nil {
